@@ -23,7 +23,7 @@ na = [{"property_id": k, "reason": v} for k, v in sorted(NOT_APPLICABLE.items())
 na += [{"property_id": k, "reason": v} for k, v in sorted(PENDING.items()) if k not in PROPS]
 m = {
     "version": 1,
-    "setup_cmd": "./check build fast trace asan",
+    "setup_cmd": "./check build fast trace asan && ./check selftest",
     "hooks": {
         "guard": "GMGPOLAR_VERIF",
         "enable": "the harness Makefile compiles every /repo source with -DGMGPOLAR_VERIF (friend struct GMGPolarVerifAccess in include/GMGPolar/gmgpolar.h); no other source hook: the OpenMP runtime, clock, allocator, libc I/O and __tsan_* callbacks are link-time seams",
